@@ -838,20 +838,40 @@ def tagSemIssues (env : Env) (ph isDef : Bool) (t : RTag) : List Issue :=
       else if !(ph && ext.contains '#') then validateUnits env t ext
       else [])
 
-/-- descendants-and-self of a group, as child lists -/
-def selfAndSubgroups (kids : List RNode) : List (List RNode) := kids :: (groupsList false kids).map (·.kids)
+/-- a top-level group `_validate_individual_tags_in_hed_string` treats as a definition: one of its tags is
+`Definition` (`find_top_level_tags(anchor_tags={DEFINITION_KEY})`, anchors compared case-folded) -/
+def holdsDefinition (env : Env) (kids : List RNode) : Bool :=
+  (directTags kids).any fun t => fold (shortBase env t) == fold definitionKey
 
-/-- `all_definition_groups`: the groups of every top-level group that holds a `Definition` tag -/
-def definitionGroups (env : Env) (root : List RNode) : List (List RNode) :=
+/-- `all_definition_groups`, by position: the spans of every top-level group that holds a `Definition` tag and of
+all groups nested inside it.  A group of the parsed tree is identified by its span (two different groups never
+start at the same `(`), which is what the code's identity test `group is def_group` amounts to (fix 5440313). -/
+def definitionSpans (env : Env) (root : List RNode) : List (Nat × Nat) :=
   (directGroups root).flatMap fun g =>
-    if (directTags g.2).any (fun t => fold (shortBase env t) == fold definitionKey) then selfAndSubgroups g.2 else []
+    if holdsDefinition env g.2 then g.1 :: (groupsList false g.2).map (·.span) else []
+
+/-- `is_definition = any(group is def_group for def_group in all_definition_groups)` -/
+def isDefGroup (env : Env) (root : List RNode) (g : GV) : Bool :=
+  g.isGroup && (definitionSpans env root).contains g.span
 
 /-- `_validate_individual_tags_in_hed_string` -/
 def individualPhase (env : Env) (ph : Bool) (len : Nat) (root : List RNode) : List Issue :=
-  let defs := definitionGroups env root
   (allGroups len root).flatMap fun g =>
-    let isDef := g.isGroup && defs.any (fun d => listEq env g.kids d)
-    (directTags g.kids).flatMap (tagSemIssues env ph isDef)
+    (directTags g.kids).flatMap (tagSemIssues env ph (isDefGroup env root g))
+
+/-! #### before fix 5440313: membership by structural equality -/
+
+/-- descendants-and-self of a group, as child lists -/
+def selfAndSubgroups (kids : List RNode) : List (List RNode) := kids :: (groupsList false kids).map (·.kids)
+
+/-- `all_definition_groups` as child lists -/
+def definitionGroupsOld (env : Env) (root : List RNode) : List (List RNode) :=
+  (directGroups root).flatMap fun g => if holdsDefinition env g.2 then selfAndSubgroups g.2 else []
+
+/-- legacy `is_definition = group in all_definition_groups`: `in` is `==` (`HedGroup.__eq__`, children compared in
+order), so a group elsewhere that spells the same members in the same order was excused too -/
+def isDefGroupOld (env : Env) (root : List RNode) (g : GV) : Bool :=
+  g.isGroup && (definitionGroupsOld env root).any (fun d => listEq env g.kids d)
 
 /-! ### full-string checks -/
 
